@@ -395,3 +395,59 @@ func LinearTerms(v ssa.Value) []string {
 	sort.Strings(out)
 	return out
 }
+
+// NaturalLoop returns the blocks of the natural loops headed by h: h itself plus every block that reaches a back edge
+// source (a predecessor of h that h dominates) without passing through h. Empty when h heads no loop.
+func NaturalLoop(h *ssa.BasicBlock) map[*ssa.BasicBlock]bool {
+	body := map[*ssa.BasicBlock]bool{}
+	var work []*ssa.BasicBlock
+	for _, p := range h.Preds {
+		if h.Dominates(p) {
+			work = append(work, p)
+		}
+	}
+	if len(work) == 0 {
+		return body
+	}
+	body[h] = true
+	for len(work) > 0 {
+		b := work[len(work)-1]
+		work = work[:len(work)-1]
+		if body[b] {
+			continue
+		}
+		body[b] = true
+		work = append(work, b.Preds...)
+	}
+	return body
+}
+
+// CarriedAcross reports a loop-carried variable that v is computed from and whose loop encloses block at: a phi at a
+// loop header h, with a value arriving over a back edge that is not the phi itself, such that at lies in the natural
+// loop of h. Such a value accumulates over the iterations of a loop that `at` is executed in once per iteration.
+func CarriedAcross(v ssa.Value, at *ssa.BasicBlock, depth int) *ssa.Phi {
+	var found *ssa.Phi
+	Walk(v, depth, func(x ssa.Value) bool {
+		phi, ok := x.(*ssa.Phi)
+		if !ok || found != nil {
+			return found == nil
+		}
+		if phi.Comment == "rangeindex" {
+			return true
+		}
+		h := phi.Block()
+		loop := NaturalLoop(h)
+		if len(loop) == 0 || !loop[at] {
+			return true
+		}
+		for i, p := range h.Preds {
+			if h.Dominates(p) && phi.Edges[i] != ssa.Value(phi) {
+				if _, isNext := phi.Edges[i].(*ssa.Next); !isNext {
+					found = phi
+				}
+			}
+		}
+		return true
+	})
+	return found
+}
